@@ -47,7 +47,7 @@ def step (s : St) (line : String) : St × String :=
     | none => (s, "bad-op")
   | _ => (s, "bad-op")
 
-def run : IO UInt32 := do
+def run (_args : List String) : IO UInt32 := do
   let stdin ← IO.getStdin
   let _ ← Driver.forLines stdin ({} : St) fun s line => do
     let (s', out) := step s line
